@@ -258,10 +258,11 @@ func l2Observe(evs []l2Ev, c *l2Call, peers []string, window time.Duration, thr 
 	return v
 }
 
-// l2Coarse folds the reject code into invalid / other for signatures.
+// l2Coarse folds the reject code into invalid / other for signatures (an
+// ignored late or other-hash reject stays visible: it is a different cause).
 func l2Coarse(obs string) string {
-	if i := strings.IndexByte(obs, '('); i > 0 {
-		obs = obs[:i]
+	if strings.IndexByte(obs, '(') > 0 {
+		return obs
 	}
 	if i := strings.IndexByte(obs, ':'); i > 0 {
 		if obs[i+1:] == pushtx.Invalid.String() {
